@@ -243,6 +243,39 @@ func runGPT(c *hx.Ctx, cfg gc.Cfg, g gptCase, pr *hx.Rng, scls string) {
 	} else {
 		c.Case(id+"/r", "gpt.read", "cfg="+cfg.String(), fmt.Sprintf("size=%d", size), fmt.Sprintf("lss=%d", lss), "dev="+gc.DevStr(d))
 		c.Impl(id+"/r", "res=ok", gc.LibTableStr(rt), "ranges="+gc.LibRangesStr(rt))
+		// read-then-rewrite (C14 clause; theorem gpt_write_idempotent): write the table that was just read back
+		// onto a copy of the device; the model does the same on the same bytes, and no byte may change
+		{
+			d2 := d.Clone()
+			d2.ResetLog()
+			var rwErr error
+			var rwPanic any
+			func() {
+				defer func() {
+					if e := recover(); e != nil {
+						rwPanic = e
+					}
+				}()
+				rwErr = rt.Write(d2, size)
+			}()
+			c.Case(id+"/i", "gpt.rewrite", "cfg="+cfg.String(), fmt.Sprintf("size=%d", size), fmt.Sprintf("lss=%d", lss), "dev="+gc.DevStr(d))
+			switch {
+			case rwPanic != nil:
+				c.Impl(id+"/i", "res=panic")
+				add(false, fmt.Sprintf("rewriting the table that was read back panicked: %v", rwPanic))
+			case rwErr != nil:
+				c.Impl(id+"/i", "res=err")
+				c.Stat("rewrite=refused")
+			default:
+				same := "1"
+				if off := memdev.DiffOutside(d, d2, 0, 0); off >= 0 {
+					same = "0"
+					add(false, fmt.Sprintf("rewriting the table that was read back changed the device (first difference at byte %d)", off))
+				}
+				c.Impl(id+"/i", "res=ok", "ws="+gc.WriteLogStr(d2), "same="+same)
+				c.Stat("rewrite=same" + same)
+			}
+		}
 		if rt.RecoveredFromBackup {
 			add(false, "a completed Write reads back from the backup copy")
 		}
@@ -291,6 +324,34 @@ func runGPT(c *hx.Ctx, cfg gc.Cfg, g gptCase, pr *hx.Rng, scls string) {
 	view, bad := gc.ValidateGPT(d, size, lss, spec.PMBR)
 	if len(bad) > 0 && uint64(size)/uint64(lss) < uint64(2*(16384/lss)+3) {
 		layout = true
+	}
+	// the Lean validity specification (Spec/GptValid.lean: GptValid / PmbrValid, written from the UEFI
+	// rules) judges the same real bytes in the model driver; its verdict must equal this oracle's
+	{
+		gptOK, pmbrOK := true, true
+		for _, b := range bad {
+			if strings.HasPrefix(b, "protective MBR") {
+				pmbrOK = false
+			} else {
+				gptOK = false
+			}
+		}
+		b2s := func(b bool) string {
+			if b {
+				return "1"
+			}
+			return "0"
+		}
+		pv, used := "-", "-"
+		if spec.PMBR {
+			pv = b2s(pmbrOK)
+		}
+		if gptOK && view != nil {
+			used = fmt.Sprint(len(view.Parts))
+		}
+		c.Case(id+"/v", "gpt.valid", fmt.Sprintf("size=%d", size), fmt.Sprintf("lss=%d", lss), "pmbr="+pm, "dev="+gc.DevStr(d))
+		c.Impl(id+"/v", "gpt="+b2s(gptOK), "pmbr="+pv, "used="+used)
+		c.Stat("lean-spec-judged=" + b2s(gptOK && pmbrOK))
 	}
 	for _, b := range bad {
 		isP := strings.HasPrefix(b, "protective MBR does not cover the disk")
@@ -570,6 +631,39 @@ func runMBR(c *hx.Ctx, id string, lss int, ps []*mbr.Partition, byPos bool, prio
 		c.Case(id+"/r", "mbr.read", fmt.Sprintf("size=%d", size), fmt.Sprintf("lss=%d", lss), "dev="+gc.DevStr(d))
 		c.Impl(id+"/r", "res=ok", "sig="+uuidDec(rt.UUID()),
 			"parts="+gc.MbrPartsStr(rt.Partitions), "ranges="+strings.Join(rs, ";"))
+		// read-then-rewrite (theorem mbr_write_idempotent): no byte may change
+		{
+			d2 := d.Clone()
+			d2.ResetLog()
+			var rwErr error
+			func() {
+				defer func() {
+					if e := recover(); e != nil {
+						rwErr = fmt.Errorf("panic: %v", e)
+					}
+				}()
+				rwErr = rt.Write(d2, size)
+			}()
+			c.Case(id+"/i", "mbr.rewrite", fmt.Sprintf("size=%d", size), "dev="+gc.DevStr(d))
+			if rwErr != nil {
+				c.Impl(id+"/i", "res=err")
+				add(false, "rewriting the MBR table that was read back failed: "+rwErr.Error())
+			} else {
+				var ws2 []string
+				for _, e := range d2.Log {
+					if !e.Sync {
+						ws2 = append(ws2, fmt.Sprintf("%d:%s", e.Off, hex.EncodeToString(e.Data)))
+					}
+				}
+				same := "1"
+				if off := memdev.DiffOutside(d, d2, 0, 0); off >= 0 {
+					same = "0"
+					add(false, fmt.Sprintf("rewriting the MBR table that was read back changed byte %d", off))
+				}
+				c.Impl(id+"/i", "res=ok", "ws="+strings.Join(ws2, ";"), "same="+same)
+				c.Stat("mbr.rewrite=same" + same)
+			}
+		}
 		if len(rt.Partitions) != 4 {
 			add(false, fmt.Sprintf("%d slots read back", len(rt.Partitions)))
 		} else {
